@@ -101,6 +101,59 @@ def mech_counter(site):
     return "counter (unsigned 64-bit + small constant, no data cast in provenance: bounded by iterations/bytes < 2^64)"
 
 
+def _op_ident(fn, op):
+    """identity of an operand for comparing `a - b` with a guard `a >= b`: the local it is a plain copy of, or its constant"""
+    if op.get("k") == "const":
+        return ("const", op.get("int"))
+    if op.get("k") not in ("copy", "move"):
+        return None
+    pl = op["pl"]
+    for _ in range(5):
+        if pl["p"]:
+            sp = F.source_place(fn, {"k": "copy", "pl": pl})
+            return ("place", sp["l"], tuple(e if isinstance(e, str) else e.get("f", e.get("d")) for e in sp["p"])) if sp else None
+        defs = F._assign_defs(fn).get(pl["l"], [])
+        if len(defs) == 1 and not F._call_defs(fn).get(pl["l"]) and defs[0][1]["rv"]["k"] == "use" and \
+                defs[0][1]["rv"]["op"]["k"] in ("copy", "move") and not fn.local_name(pl["l"]):
+            pl = defs[0][1]["rv"]["op"]["pl"]
+            continue
+        if len(defs) == 1 and defs[0][1]["rv"]["k"] in ("ref", "copy_for_deref") and not fn.local_name(pl["l"]):
+            pl = defs[0][1]["rv"]["pl"]
+            continue
+        break
+    return ("local", pl["l"], tuple(e if isinstance(e, str) else e.get("f", e.get("d")) for e in pl["p"]))
+
+
+def mech_guarded_sub(site):
+    """unsigned `a - b` on a path where `a >= b` (or `a > b`, `!(a < b)`, `b <= a`, ...) is known for the same two operands"""
+    if site.kind != "overflow" or not site.detail.startswith("Sub "):
+        return None
+    tys = site.detail.split(" ")[1]
+    if tys.split(",")[0] not in ("usize", "u64", "u32", "u16", "u8", "u128"):
+        return None
+    ops = site.extra.get("ops") or []
+    if len(ops) != 2:
+        return None
+    fn = site.fn
+    a, b = _op_ident(fn, ops[0]), _op_ident(fn, ops[1])
+    if a is None or b is None:
+        return None
+    try:
+        fa = PR.facts(fn)
+    except Exception:
+        return None
+    for at, val in fa.binop_facts(site.bb):
+        l, r = _op_ident(fn, at["l"]), _op_ident(fn, at["r"])
+        op = at["op"] if val else CMP_NEG.get(at["op"])
+        if op is None:
+            continue
+        if (l, r) == (a, b) and op in ("Ge", "Gt"):
+            return "subtraction under the path fact minuend %s subtrahend" % (">=" if op == "Ge" else ">")
+        if (l, r) == (b, a) and op in ("Le", "Lt"):
+            return "subtraction under the path fact subtrahend %s minuend" % ("<=" if op == "Le" else "<")
+    return None
+
+
 def mech_const_ctor(site):
     if site.kind == "api:chrono-ctor" and site.call is not None and site.call.args:
         v = _const_int(site.call.args[0])
@@ -430,7 +483,7 @@ def run_inventory(R, rid, root_name, desc, restrict=None):
     for key in sorted(by_key):
         ss = by_key[key]
         for idx, s in enumerate(sorted(ss, key=lambda s: (s.file, s.line))):
-            how = mech_const_divisor(s) or mech_counter(s) or mech_const_ctor(s) or mech_lengths(s) or mech_const_clamp(s) or mech_position_index(s)
+            how = mech_const_divisor(s) or mech_counter(s) or mech_const_ctor(s) or mech_lengths(s) or mech_const_clamp(s) or mech_position_index(s) or mech_guarded_sub(s)
             if how:
                 R.ok(rid, key, "mechanical: " + how, s.loc(), nontrivial=False)
                 continue
